@@ -488,7 +488,7 @@ package collection
 //@ func NewRollingWindow
 //@   prop C09, C01
 //@   opaque newWindow
-//@   loop 1 invariant -1 <= rangeindex
+//@   loop 1 invariant -1 <= rangeindex && rangeindex < len(opts) && w != nil && (rangeindex == -1 ==> w.size == size && w.interval == interval && w.offset == 0 && w.lastTime == ret(timex.Now) && w.win == ret(newWindow) && !w.ignoreCurrent)
 //@   ensures [starts-now-at-offset-zero] size >= 1 && len(opts) == 0 ==> result != nil && result.size == size && result.interval == interval && result.offset == 0 && result.lastTime == ret(timex.Now) && result.win == ret(newWindow) && calls(newWindow, size) == 1 && !result.ignoreCurrent
 //@   panic-ensures [size-must-be-positive] size < 1
 //@ func IgnoreCurrentBucket$1
